@@ -60,9 +60,28 @@ class StmtMixin:
                        'CXXRecordDecl'):
                 continue
             elif k == 'DecompositionDecl':
-                raise LoweringError(f'structured binding declaration in {self.cur["name"]} is not lowered')
+                out += self.decomposition(d, ind)
             else:
                 raise LoweringError(f'no rule for local declaration {k} in {self.cur["name"]}')
+        return out
+
+    def decomposition(self, d, ind):
+        """`auto [a, b] = <pair-valued expression>;` : the pair is held in a temporary, a and b name its members"""
+        inner = d.get('inner', [])
+        binds = [c for c in inner if c.get('kind') == 'BindingDecl']
+        inits = [c for c in inner if c.get('kind') != 'BindingDecl']
+        if len(binds) != 2 or len(inits) != 1:
+            raise LoweringError(f'structured binding with {len(binds)} names in {self.cur["name"]} (only pairs are lowered)')
+        t = self.tyof(inits[0]).strip_ref()
+        if self.family(t) != 'pair':
+            raise LoweringError(f'structured binding over {t!r} in {self.cur["name"]} (only std::pair is lowered)')
+        if d.get('type', {}).get('qualType', '').rstrip().endswith('&'):
+            raise LoweringError(f'structured binding by reference in {self.cur["name"]} is not lowered')
+        v = self.ex(inits[0])
+        tmp = self.hoist(t, v)
+        out = self.flush([], ind)
+        for k, b in enumerate(binds):
+            self.cur['locals'][b['id']] = (f'{tmp}.{"first" if k == 0 else "second"}', False)
         return out
 
     def local_name(self, d):
